@@ -215,7 +215,7 @@ func (g *gen) runHook(n *node, st *State, hk *WriteHook, fa *fieldAccess, val Va
 	e.vars[hk.Old] = binding{app("select", m, fa.base), xtOf(fa.field.Type())}
 	e.vars[hk.New] = binding{val, xtOf(fa.field.Type())}
 	for _, c := range hk.Asserts {
-		t, err := e.trBool(c.E)
+		t, err := e.trAssert(c.E)
 		if err != nil {
 			g.errorf("hook %s.%s [%s]: %v", hk.Type, hk.Field, c.Label, err)
 			continue
